@@ -25,7 +25,7 @@ SPEC = {
     "vk_to_lower_ascii": {"cap_is_n": True},
     "vk_parse_state": {"skip": True}, "vk_set_limit": {"skip": True}, "vk_capi_get": {"state": True}, "vk_capi_owned": {"skip": True},
     "vk_capi_failed_mutators": {"max_n": 6}, "vk_canon": {"p0": [0, 1, 2, 3, 4, 5, 6, 7], "p1": [0, 1, 4, 5], "max_n": 5},
-    "vk_char_class": {"p0": list(range(0, 256, 3))}, "vk_puny_verify": {"max_n": 3}, "vk_puny_decode": {"max_n": 3}, "vk_puny_encode": {"min_n": 4, "max_n": 8}, "vk_escape": {"p0": [0, 1], "max_n": 7}, "vk_ensure_tables": {"skip": True}, "vk_tables_published": {"skip": True}, "vk_tables_env_publish": {"skip": True},
+    "vk_char_class": {"p0": list(range(0, 256, 3))}, "vk_fast_path": {"max_n": 14}, "vk_puny_verify": {"max_n": 3}, "vk_puny_decode": {"max_n": 3}, "vk_puny_encode": {"min_n": 4, "max_n": 8}, "vk_escape": {"p0": [0, 1], "max_n": 7}, "vk_ensure_tables": {"skip": True}, "vk_tables_published": {"skip": True}, "vk_tables_env_publish": {"skip": True},
 }
 _corpus_cache = {}
 _lock = threading.Lock()
@@ -231,7 +231,7 @@ def tv_unit(eng, u, cpath):
     r = subprocess.run([GCC, "-O1", "-w", "-c", src, "-o", o, "-I", os.path.join(VERIF, "ll2c")], capture_output=True, text=True)
     if r.returncode != 0:
         return {"error": "gcc: " + r.stderr[-500:]}
-    r = subprocess.run([CLANGXX, o, obj, "-o", exe, "-lpthread"], capture_output=True, text=True)
+    r = subprocess.run([CLANGXX, "-no-pie", "-Wl,--unresolved-symbols=ignore-all", o, obj, "-o", exe, "-lpthread"], capture_output=True, text=True)
     if r.returncode != 0:
         return {"error": "link: " + r.stderr[-500:]}
     r = subprocess.run([exe, cpath], capture_output=True, text=True, errors="replace", timeout=600)
@@ -264,7 +264,7 @@ def inv_corpus(eng):
                         "-I", os.path.join(VERIF, "harness"), "-I", os.path.join(VERIF, "ref")], capture_output=True, text=True)
     if r.returncode != 0:
         return {"error": "gcc: " + r.stderr[-400:]}
-    r = subprocess.run([CLANGXX, o, obj, "-o", exe, "-lpthread"], capture_output=True, text=True)
+    r = subprocess.run([CLANGXX, "-no-pie", "-Wl,--unresolved-symbols=ignore-all", o, obj, "-o", exe, "-lpthread"], capture_output=True, text=True)
     if r.returncode != 0:
         return {"error": "link: " + r.stderr[-400:]}
     r = subprocess.run([exe, cpath], capture_output=True, text=True, errors="replace", timeout=600)
